@@ -95,6 +95,11 @@ theorem C33_accepted_within (s : St) (x : Stream) (id dlen : Nat) (pad : Option 
   · simp [h] at hacc
   · omega
 
+/-- the client's SETTINGS (INITIAL_WINDOW_SIZE …) and WINDOW_UPDATEs govern what the SERVER may send; they
+    leave every receive window and all buffered data untouched -/
+theorem C33_client_settings_inert (s : St) (v id inc : Nat) :
+    (step s (.clientSettings v)).2.2 = s ∧ (step s (.clientWU id inc)).2.2 = s := ⟨rfl, rfl⟩
+
 /-! ### the former witnesses (inputs on which the unfixed code lost octets; corpus/C33/known.ops) -/
 
 /-- content-length 0, one DATA octet: RST_STREAM(PROTOCOL_ERROR), and now the octet is credited -/
